@@ -73,14 +73,19 @@ func runMain() {
 	dist := map[string]int{}
 	extra := map[string]interface{}{}
 	// --- race-detector runs of the concurrent harnesses ---
+	// quick: the scheduler harness and the concurrent subset of the query-event harness (Parallel resources with
+	// overlapping query requests, restart histories, directed and racy schedules); thorough: the full harnesses
 	children := []child{{"sched", []string{"-prop", "C16"}}}
 	if o.Tier == "thorough" {
-		children = append(children, child{"kv", nil}, child{"index", []string{"-prop", "C13"}}, child{"req", []string{"-prop", "C04"}})
-		if _, err := os.Stat(filepath.Join(*hdir, "cmd", "query")); err == nil {
-			children = append(children, child{"query", nil})
-		}
+		children = append(children, child{"kv", nil}, child{"index", []string{"-prop", "C13"}}, child{"req", []string{"-prop", "C04"}}, child{"query", nil})
+	} else {
+		children = append(children, child{"query", []string{"-race-subset"}})
 	}
-	env := append(os.Environ(), "CGO_ENABLED=1", "GOFLAGS=-mod=mod", "GOPROXY=off", "GOSUMDB=off", "GOTOOLCHAIN=local")
+	goflags := os.Getenv("GOFLAGS") // the driver may point the build at a scratch copy through -modfile (VERIF_REPO)
+	if goflags == "" {
+		goflags = "-mod=mod"
+	}
+	env := append(os.Environ(), "CGO_ENABLED=1", "GOFLAGS="+goflags, "GOPROXY=off", "GOSUMDB=off", "GOTOOLCHAIN=local")
 	scenarios := 0
 	for _, ch := range children {
 		bin := filepath.Join(o.Out, "race_"+ch.cmd)
